@@ -70,11 +70,28 @@ def gen_case(rng, i, tier):
     # the text in one node, split in the middle into two chained nodes, or split at word boundaries into several
     # nodes with whitespace on both sides of every seam ("aa ", " b cc")
     chained = rng.choice([False, False, False, False, True, True, "seams", "seams"])
-    return {"w": w, "words": words, "indent": indent, "depth": depth, "chained": chained}
+    # whitespace before the first / after the last word (an unreduced tree): it is dropped, the lines are the same
+    pad = rng.choice(["", "", "", "lead", "trail", "both"])
+    if pad in ("lead", "both") and rng.random() < 0.5 and len(words) > 2:
+        # the greedy first line is exactly as long as the width (seeded C19-7: leading space counted as a column)
+        a, b = rng.randint(1, max(1, w // 2)), rng.randint(1, max(1, w // 2))
+        if a + 1 + b <= w:
+            words[0], words[1] = words[0][:1] * a, (words[1][:1] * (w - a - 1)) or "x"
+    return {"w": w, "words": words, "indent": indent, "depth": depth, "chained": chained, "pad": pad}
 
 
 def pieces(case):
     """contents of the text nodes the element's text is held in"""
+    out = _pieces(case)
+    pad = case.get("pad", "")
+    if pad in ("lead", "both"):
+        out[0] = [" ", "\n  ", "\t"][len(case["words"]) % 3] + out[0]
+    if pad in ("trail", "both"):
+        out[-1] = out[-1] + [" ", "\n", "  "][len(case["words"]) % 3]
+    return out
+
+
+def _pieces(case):
     words = case["words"]
     text = " ".join(words)
     if case["chained"] == "seams" and len(words) > 1:
